@@ -3,6 +3,7 @@ from __future__ import annotations
 
 import numpy as np
 
+import argguard
 import common
 
 GROUP = "tensors"
@@ -617,11 +618,15 @@ def compare_magnitudes(chk, T, n, rng):
 
 
 def call(fn, args):
+    """("OK", flat result[, faults]) | ("ERR", code, message); faults (argguard): arguments the call modified in place -- the
+    models are pure functions, a kernel that writes into its argument is not described by them (seeded change C11f)"""
+    passed = [np.array(a) if isinstance(a, np.ndarray) else a for a in args]
     try:
-        return ("OK", np.asarray(fn(*[np.array(a) if isinstance(a, np.ndarray) else a for a in args]),
-                                 dtype=float).reshape(-1))
+        res, faults = argguard.guarded(fn, passed)
     except Exception as e:  # noqa: BLE001
         return ("ERR", common.exc_code(e), str(e))
+    out = ("OK", np.asarray(res, dtype=float).reshape(-1))
+    return out + (faults,) if faults else out
 
 
 def compare_entry(chk, name, gen, fn, n, rng, rtol=1e-11, oracle_tol=1e-12):
@@ -634,6 +639,9 @@ def compare_entry(chk, name, gen, fn, n, rng, rtol=1e-11, oracle_tol=1e-12):
     for c, m in zip(cases, mres):
         r = call(fn, c["args"])
         hist[name] = hist.get(name, 0) + 1
+        chk.cov["calls_checked_for_argument_mutation"] = chk.cov.get("calls_checked_for_argument_mutation", 0) + 1
+        if r[0] == "OK" and len(r) > 2:
+            bad.append((name, c, "the call modified its argument in place: " + "; ".join(r[2])))
         tol = rtol
         if "residual" in c:
             # oracle hypotheses of the SVD (checked on the real routine's output)
